@@ -510,15 +510,14 @@ namespace gtry::scl::strm
 
 	template<StreamSignal StreamT>
 	StreamT delay(StreamT&& in, size_t cycles, const RegisterSettings& settings) {
-		StreamT ret = std::forward<StreamT>(in);
-
-		if(cycles > 0)
-		{
-			for (size_t i = 0; i < cycles - 1; i++)
-				ret = regDownstreamBlocking(move(ret), settings);
-			ret = regDownstream(move(ret), settings);
-		}
-		return ret;
+		// Do not re-assign a stream variable that was moved into: moving makes the moved-from signals aliases of the
+		// variable's FINAL value, so an upstream stage that reads its result before it is driven (e.g. reduceWidth's
+		// transfer(out)) would observe the handshake behind the delay registers instead of its own.
+		if (cycles == 0)
+			return std::forward<StreamT>(in);
+		if (cycles == 1)
+			return regDownstream(std::forward<StreamT>(in), settings);
+		return delay(regDownstreamBlocking(std::forward<StreamT>(in), settings), cycles - 1, settings);
 	}
 
 	template<BaseSignal T>
